@@ -10,7 +10,7 @@
 (* is Codec.tla; handshake nonces are per-link counters; the magic number  *)
 (* of an endpoint is the pair <<owner, peer>>.                             *)
 (***************************************************************************)
-EXTENDS Integers, Sequences, FiniteSets, TLC, Props
+EXTENDS Integers, Sequences, FiniteSets, TLC, Props, F32
 
 NumSyncPackets      == 5
 ShutdownTimer       == 5000
@@ -91,9 +91,9 @@ EP_UpdateLocalAdv(e, local_frame) ==
 
 Sum30(a) == LET RECURSIVE S(_) S(i) == IF i < 0 THEN 0 ELSE a[i] + S(i - 1) IN S(FrameWindowSize - 1)
 
-\* average_frame_advantage: ((remote_avg - local_avg) / 2.0) as i32 -- exact rational,
-\* truncated toward zero (the f32 computation is exact on the sums that occur; see TimeSync.tla)
-EP_AvgAdv(e) == TruncDiv(Sum30(e.ts_remote) - Sum30(e.ts_local), 2 * FrameWindowSize)
+\* average_frame_advantage: ((remote_avg - local_avg) / 2.0) as i32, computed in f32 by the code;
+\* F32Average (F32.tla) is that computation as an exact integer function of the two window sums
+EP_AvgAdv(e) == F32Average(Sum30(e.ts_remote), Sum30(e.ts_local))
 
 \* pop_pending_output
 RECURSIVE EP_PopPending(_, _)
